@@ -15,6 +15,11 @@ CLAIMS = {
    text="Expr.tla models gimli's Evaluation as a state machine (decode at arbitrary pc via OpCodec.tla, typed/generic arithmetic on byte-tuple bit-vectors via Value.tla, suspension/resume protocol, pieces, nested calls, iteration limit, storage capacities). TLC explores on an 8-bit target every program up to 2-4 symbols over five alphabet slices (84 symbols) x every resume answer from boundary sets x iteration limits x heap/small storage, checking machine invariants in every state; every terminated behaviour is replayed on the real evaluator and all Requires* payloads and the final pieces/value are compared. All 256 opcode bytes x 13 operand patterns x truncations x 6 encodings are decoded by the spec and compared with Operation::parse. Random programs at address sizes 1/2/4/8 with 64-bit operands are recorded and re-run by the trace spec ExprTrace.",
    note="Trusted: TLC, BV arithmetic (MCBV lemmas), harness projection (generic values mod 2^(8*asz)). IEEE-754 arithmetic is not specified (runs depending on it are compared only up to that point). Exhaustive part is at address size 1; wider sizes are sampled by trace validation. Error kinds other than TooManyIterations are drift.",
    technique="TLA+ state machine Expr/OpCodec/Value; TLC exhaustive behaviours replayed on the code + TLC trace validation of recorded evaluations"),
+ "C15": dict(
+   cat="model_checking", ref="DESIGN.md §5 C15",
+   text="ExprWriter.tla models write::Expression as a builder machine: the meaning of every op_* call in the vocabulary of the reader-side decoding spec (OpCodec.tla), the emission as coded (short forms, GNU opcodes before v5, branch displacements) and which requests have no encoding. TLC enumerates every call sequence up to 2-4 calls over three alphabet slices (~100 calls with boundary operands, references to a base type / earlier / later / other-unit entries, nested entry_value, branches to every index) x encodings x contexts (DIE attribute, location list, CFI) and proves Decode(Emit(calls)) = Mean(calls) and predicted size = emitted length on the model; each sequence is replayed on the real writer, read back, and decoded operations, reference targets (by entry name), branch targets (by operation index), the entries/attributes following the expression and the evaluation result (Expr.tla) are compared. Random 3-40 call sequences are validated by ExprWriterTrace, which decodes the recorded bytes with OpCodec.",
+   note="Trusted: TLC, OpCodec/Expr specs (bound to the reader by C07), harness name resolution of reference offsets. A forward unit-relative reference may be refused or encoded; evaluation equivalence only for reference-free programs.",
+   technique="TLA+ builder machine ExprWriter composed with OpCodec/Expr; TLC-enumerated call sequences replayed on the writer + TLC trace validation of emitted bytes"),
 }
 NOT_YET = "check not built yet in this session (see DESIGN.md §9 build order); not claimed"
 def main():
